@@ -160,6 +160,14 @@ struct Pred {
     end: End,
     /// packets of the history consumed by the reference
     consumed: usize,
+    /// what the server may have sent ahead of time: packets of the login sequence that do not depend on the
+    /// answer it is waiting for (the authentication Cookie Request next to the session Cookie Request; the
+    /// Encryption Request where no authentication cookie can change it). The statement fixes the order in
+    /// which the client receives them, not that the server waits for each answer before it asks the next thing.
+    early: Vec<Exp>,
+    /// the handshake announced the status intent (the status service may be consulted from then on: how early, and
+    /// whether at all for a client that never sends its Status Request, is not the statement's business)
+    status_intent: bool,
 }
 
 #[derive(Clone, Debug)]
@@ -196,18 +204,25 @@ fn predict(hist: &[Kind], cfg: &Cfg) -> Vec<Pred> {
         LgAck,
         Conf { info: bool },
     }
+    fn early_after(st: St, cfg: &Cfg) -> Vec<Exp> {
+        match st {
+            St::LgSession(tr) if tr && cfg.secret => vec![Exp::CookieReq("passage:authentication")],
+            St::LgSession(_) => vec![Exp::EncReq],
+            _ => vec![],
+        }
+    }
     fn step(st: St, outs: Vec<Exp>, hist: &[Kind], i: usize, cfg: &Cfg, acc: &mut Vec<Pred>) {
         if let St::Conf { info } = st {
             let info = info || hist[i..].iter().any(|k| k.id == 0 && dec_client_info(&k.body) != Dec::No);
-            acc.push(Pred { outs, end: End::Config { info }, consumed: hist.len() });
+            acc.push(Pred { outs, end: End::Config { info }, consumed: hist.len(), early: vec![], status_intent: false });
             return;
         }
         if i == hist.len() {
-            acc.push(Pred { outs, end: End::Waiting, consumed: i });
+            acc.push(Pred { outs, end: End::Waiting, consumed: i, early: early_after(st, cfg), status_intent: matches!(st, St::StReq | St::StPing) });
             return;
         }
         let k = &hist[i];
-        let dead = |acc: &mut Vec<Pred>, outs: &Vec<Exp>| acc.push(Pred { outs: outs.clone(), end: End::Ended { ok: false }, consumed: i + 1 });
+        let dead = |acc: &mut Vec<Pred>, outs: &Vec<Exp>| acc.push(Pred { outs: outs.clone(), end: End::Ended { ok: false }, consumed: i + 1, early: early_after(st, cfg), status_intent: matches!(st, St::StReq | St::StPing) });
         // (decodes as the expected packet?, next state, outputs added)
         let (d, next, add): (Dec, St, Vec<Exp>) = match st {
             St::Hand => {
@@ -251,7 +266,7 @@ fn predict(hist: &[Kind], cfg: &Cfg) -> Vec<Pred> {
             o.extend(add);
             if st == St::StPing {
                 // the status exchange is complete
-                acc.push(Pred { outs: o, end: End::Ended { ok: true }, consumed: i + 1 });
+                acc.push(Pred { outs: o, end: End::Ended { ok: true }, consumed: i + 1, early: vec![], status_intent: true });
             } else {
                 step(next, o, hist, i + 1, cfg, acc);
             }
@@ -364,11 +379,17 @@ fn check(pred: &Pred, obs: &Obs, cfg: &Cfg) -> Option<(String, String)> {
             other => return Some((format!("expected-{e:?}-missing-or-wrong").replace(|c: char| !c.is_ascii_alphanumeric() && c != '-', ""), format!("reply #{i} should be {e:?} but is {:?}; replies {:?}", other.map(|p| p.to_json()), names()))),
         }
     }
-    let rest = &pk[pred.outs.len().min(pk.len())..];
+    let mut rest = &pk[pred.outs.len().min(pk.len())..];
+    for e in &pred.early {
+        match rest.first() {
+            Some(p) if matches_exp(e, p, cfg) => rest = &rest[1..],
+            _ => break,
+        }
+    }
     let routing = obs.calls.iter().any(|c| matches!(c.kind(), "discover" | "filter" | "select"));
     let status_calls = obs.calls.iter().filter(|c| c.kind() == "status").count();
     let want_status = pred.outs.iter().filter(|e| **e == Exp::StatusResponse).count();
-    if (want_status == 0 && status_calls > 0) || status_calls < want_status {
+    if (want_status == 0 && status_calls > 0 && !pred.status_intent) || status_calls < want_status {
         return Some(("status-service-call-count".into(), format!("status service consulted {status_calls} times, {want_status} status responses are due")));
     }
     let auth_calls = obs.calls.iter().filter(|c| c.kind() == "authenticate").count();
